@@ -348,6 +348,7 @@ func fontSx(file []byte) vlib.Sx {
 
 type readResult struct {
 	class string // ok err panic
+	font  *sfnt.Font
 	ng    int
 	both  bool // font value AND error, or neither
 	log   [][2]int
@@ -371,6 +372,7 @@ func callRead(r io.Reader) (res readResult) {
 	res.class = "ok"
 	if f != nil {
 		res.ng = f.NumGlyphs()
+		res.font = f
 	}
 	return res
 }
@@ -629,6 +631,12 @@ func flOracle(file []byte, plain readResult, style string, ks []int, chunk int) 
 			continue
 		}
 		same := res.class == plain.class && (res.class != "ok" || res.ng == plain.ng)
+		if c == 'o' && plain.class == "ok" && style != "trunc" && style != "seof" {
+			// a read that succeeds on a faulty source must return the font of the intact file
+			if d := sameAsIntact(res.font, file); d != "" {
+				set(fmt.Sprintf("sfnt.Read (%s, k=%d) succeeds on a faulty source but %s", style, k, d), sigCFFDiffers)
+			}
+		}
 		switch style {
 		case "at", "atp":
 			switch {
@@ -740,6 +748,12 @@ func RunCase(line string) (impl, fail, sig string, err error) {
 	kind, err := vlib.AsAtom(items[0])
 	if err != nil {
 		return "", "", "", err
+	}
+	switch kind {
+	case "cff":
+		return runCFFLine(items)
+	case "bulk":
+		return runBulkLine(items)
 	}
 	rec, expect, implStyle, err := findRecipe(items[1:])
 	if err != nil {
